@@ -123,6 +123,21 @@ inductive SizeE where
   | other (src : String)
   deriving Repr
 
+/-- a hand-written hash tree over slices `[lo, hi)` of a byte array -/
+inductive HT where
+  | leaf (lo hi : Nat)
+  | zero
+  | node (l r : HT)
+  deriving Repr, DecidableEq
+
+/-- arithmetic over literals, configuration constants and `XType.TypeByteLength()` -/
+inductive AExpr where
+  | l (e : LExpr)
+  | sizeOf (view : Name)
+  | mul (a b : AExpr)
+  | add (a b : AExpr)
+  deriving Repr
+
 /-- recognised shape of one method body -/
 inductive Method where
   /-- `dr.Container / w.Container / codec.ContainerLength / hFn.HashTreeRoot` over these struct fields, in this order -/
@@ -141,6 +156,19 @@ inductive Method where
   | lenTimes (size : SizeE)
   /-- `return uint64(len(a))` -/
   | len
+  /-- whole-array byte access of an `[n]byte` receiver: `ReadAll` (`dr.Read(p[:])`), `Write` (`w.Write(p[:])`),
+  `ReadPadChecked` (read, then refuse when `last byte >> k ≠ 0`) -/
+  | raw (variant : Name) (n : Nat) (k : Nat)
+  /-- delegation to ztyp's `UintNView`/`BoolView` of `k` bytes: `ViewDeserialize`, `ViewHashTreeRoot`, `WriteUint` -/
+  | basic (variant : Name) (k : Nat)
+  /-- hand-written merkleization of an `[n]byte` receiver -/
+  | htrTree (n : Nat) (t : HT)
+  /-- `for _, v := range a { out += v.ByteLength(spec) + OFFSET_SIZE }` -/
+  | sumOffsets
+  /-- `k*OFFSET_SIZE + a.F1.ByteLength(spec) + … ` -/
+  | fieldSum (k : Nat) (args : List Name)
+  /-- `return <arithmetic with XType.TypeByteLength()>` -/
+  | constA (e : AExpr)
   | opaque (why : String)
   deriving Repr
 
@@ -310,6 +338,48 @@ def structOk : List GoField → SFields → Bool
      | none => false) && structOk fs r
   | _, _ => false
 
+/-- `XType.TypeByteLength()` replaced by the symbolic fixed length of the schema the view denotes -/
+def AExpr.toLExpr (owners : Owners) (views : List ViewDef) : AExpr → Option LExpr
+  | .l e => some e
+  | .sizeOf v =>
+    match viewSTy owners views viewFuel v with
+    | some t => fixedLenS t
+    | none => none
+  | .mul a b =>
+    match a.toLExpr owners views, b.toLExpr owners views with
+    | some x, some y => some (.mul x y)
+    | _, _ => none
+  | .add a b =>
+    match a.toLExpr owners views, b.toLExpr owners views with
+    | some x, some y => some (.add x y)
+    | _, _ => none
+
+/-! hand-written hash trees -/
+
+def HT.depth? : HT → Option Nat
+  | .leaf _ _ => some 0
+  | .zero => some 0
+  | .node l r =>
+    match l.depth?, r.depth? with
+    | some a, some b => if a == b then some (a + 1) else none
+    | _, _ => none
+
+/-- the leaves, left to right: `some (lo, hi)` for a slice, `none` for a zero chunk -/
+def HT.leaves : HT → List (Option (Nat × Nat))
+  | .leaf lo hi => [some (lo, hi)]
+  | .zero => [none]
+  | .node l r => l.leaves ++ r.leaves
+
+/-- the leaves of the canonical merkleization of `n` bytes in a tree of `2^d` leaves -/
+def expectedLeaves (n d : Nat) : List (Option (Nat × Nat)) :=
+  (List.range (2 ^ d)).map fun i => if 32 * i < n then some (32 * i, min (32 * i + 32) n) else none
+
+/-- the tree is the merkleization of the `n`-byte array: perfect, of the depth of `ceil(n/32)` chunks, leaves in order -/
+def htOk (n : Nat) (t : HT) : Bool :=
+  match t.depth? with
+  | some d => d == Zrnt.SSZ.ceilLog2 ((n + 31) / 32) && t.leaves == expectedLeaves n d
+  | none => false
+
 /-- a `return <arithmetic>` or `return XType.TypeByteLength()` body of ByteLength / FixedLength -/
 def lengthMethodOk (owners : Owners) (views : List ViewDef) (sty : STy) (isFixedLen : Bool) : Method → Bool
   | .typeByteLength v =>
@@ -321,7 +391,20 @@ def lengthMethodOk (owners : Owners) (views : List ViewDef) (sty : STy) (isFixed
     match fixedLenS sty with
     | some s => sameLen s e && !isLit e 0
     | none => isFixedLen && isLit e 0
+  | .constA a =>
+    match a.toLExpr owners views, fixedLenS sty with
+    | some e, some s => sameLen s e && !isLit e 0
+    | _, _ => false
   | _ => false
+
+/-- all field schemas are variable-size -/
+def allVariable : SFields → Bool
+  | .nil => true
+  | .cons _ t r => !isFixedS t && allVariable r
+
+def sfLength : SFields → Nat
+  | .nil => 0
+  | .cons _ _ r => sfLength r + 1
 
 /-- one method of a container type -/
 def containerMethodOk (owners : Owners) (views : List ViewDef) (fields : List GoField) (sty : STy)
@@ -335,6 +418,12 @@ def containerMethodOk (owners : Owners) (views : List ViewDef) (fields : List Go
        | n!"FixedLength" => variant == n!"ContainerLength" && isFixedS sty
        | n!"HashTreeRoot" => variant == n!"HashTreeRoot"
        | _ => false)
+  -- `k*OFFSET_SIZE + Σ field.ByteLength()`: the container length when every field is variable-size
+  | .fieldSum k args =>
+    which == n!"ByteLength" && argsOk fields args && k == fields.length &&
+      (match sty with
+       | .container fs => allVariable fs
+       | _ => false)
   | .opaque _ => true
   | m => (which == n!"ByteLength" || which == n!"FixedLength") &&
       lengthMethodOk owners views sty (which == n!"FixedLength") m
@@ -347,8 +436,11 @@ def isBasicS : STy → Bool
 def listMethodOk (owners : Owners) (views : List ViewDef) (sty elem : STy) (lim : LExpr) (which : Name) : Method → Bool
   | .list variant size limit =>
     match which with
-    | n!"Deserialize" => variant == n!"List" && sizeOk owners views elem size && limitOk lim limit
-    | n!"Serialize" => variant == n!"List" && sizeOk owners views elem size
+    | n!"Deserialize" =>
+      ((variant == n!"List") || (variant == n!"ReadRootsLimited" && sameSTy elem (.bytesN 32))) &&
+        sizeOk owners views elem size && limitOk lim limit
+    | n!"Serialize" =>
+      ((variant == n!"List") || (variant == n!"WriteRoots" && sameSTy elem (.bytesN 32))) && sizeOk owners views elem size
     | n!"HashTreeRoot" =>
       limitOk lim limit &&
         ((variant == n!"ComplexListHTR" && !isBasicS elem) ||
@@ -356,6 +448,8 @@ def listMethodOk (owners : Owners) (views : List ViewDef) (sty elem : STy) (lim 
          (variant == n!"Uint8ListHTR" && sameSTy elem (.uint 1)))
     | _ => false
   | .lenTimes size => which == n!"ByteLength" && sizeOk owners views elem (some size)
+  -- Σ (element.ByteLength + OFFSET_SIZE): the list length for variable-size elements
+  | .sumOffsets => which == n!"ByteLength" && !isFixedS elem
   | .opaque _ => true
   | m => which == n!"FixedLength" && lengthMethodOk owners views sty true m
 
@@ -376,16 +470,34 @@ def bitsMethodOk (owners : Owners) (views : List ViewDef) (sty : STy) (kind : Na
       (kind == n!"bytelist" && variant == n!"ByteListHTR" && limitOk lim limit)
     else false
   | .len => which == n!"ByteLength" && kind != n!"bitvector"
+  -- a bitvector held in a fixed byte array: all `n` bytes are read/written; the unused bits of the last byte
+  -- (`lim mod 8` used ones) are checked to be zero, unless the bit length is a multiple of 8
+  | .raw variant n k =>
+    kind == n!"bitvector" && isFixedLenOf sty (.lit n) &&
+      ((which == n!"Serialize" && variant == n!"Write") ||
+       (which == n!"Deserialize" &&
+         ((variant == n!"ReadPadChecked" && sameLen lim (.add (.mul (.lit 8) (.lit (n - 1))) (.lit k)) && 0 < k && k < 8) ||
+          (variant == n!"ReadAll" && sameLen lim (.mul (.lit 8) (.lit n))))))
+  | .htrTree n t => which == n!"HashTreeRoot" && kind == n!"bitvector" && isFixedLenOf sty (.lit n) && htOk n t
   | .opaque _ => true
   | m => (which == n!"ByteLength" || which == n!"FixedLength") &&
       lengthMethodOk owners views sty (which == n!"FixedLength") m
 
 def vectorMethodOk (owners : Owners) (views : List ViewDef) (sty elem : STy) (len : LExpr) (which : Name) : Method → Bool
   | .vector variant size length =>
+    -- a missing length stands for `len(receiver)`: the slice/array behind a vector type holds exactly `len` elements
+    let lenOk := match length with
+      | some l => sameLen l len
+      | none => which != n!"Deserialize"
     if which == n!"Deserialize" || which == n!"Serialize" then
-      variant == n!"Vector" && sizeOk owners views elem size && limitOk len length
-    else which == n!"HashTreeRoot" && limitOk len length &&
-      ((variant == n!"ComplexVectorHTR" && !isBasicS elem) || (variant == n!"Uint64VectorHTR" && sameSTy elem (.uint 8)))
+      ((variant == n!"Vector") || (variant == n!"ReadRoots" && sameSTy elem (.bytesN 32))) &&
+        sizeOk owners views elem size && lenOk
+    else which == n!"HashTreeRoot" && lenOk &&
+      ((variant == n!"ComplexVectorHTR" && !isBasicS elem) || (variant == n!"Uint64VectorHTR" && sameSTy elem (.uint 8)) ||
+       (variant == n!"ChunksHTR" && sameSTy elem (.bytesN 32)))
+  -- `tree.WriteRoots(w, a)` is recorded as a list shape: all roots of the slice
+  | .list variant size _ =>
+    which == n!"Serialize" && variant == n!"WriteRoots" && sameSTy elem (.bytesN 32) && sizeOk owners views elem size
   -- `len(a) * size`: the slice behind a vector type holds exactly `len` elements
   | .lenTimes size => which == n!"ByteLength" && sizeOk owners views elem (some size)
   | .opaque _ => true
@@ -397,7 +509,28 @@ def leafMethodOk (owners : Owners) (views : List ViewDef) (sty : STy) (which : N
   | .const e => (which == n!"ByteLength" || which == n!"FixedLength") && isFixedLenOf sty e
   | .typeByteLength v => (which == n!"ByteLength" || which == n!"FixedLength") &&
       lengthMethodOk owners views sty (which == n!"FixedLength") (.typeByteLength v)
-  | _ => true
+  -- integer aliases: delegation to ztyp's view of the same width
+  | .basic variant k =>
+    (match sty with
+     | .uint w => w == k
+     | .bool => k == 1
+     | _ => false) &&
+    ((which == n!"Deserialize" && variant == n!"ViewDeserialize") || (which == n!"Serialize" && variant == n!"WriteUint") ||
+     (which == n!"HashTreeRoot" && variant == n!"ViewHashTreeRoot"))
+  -- byte arrays: the whole array is read / written / merkleized
+  | .raw variant n _ =>
+    (match sty with
+     | .bytesN e => isLit e n
+     | _ => false) &&
+    ((which == n!"Deserialize" && variant == n!"ReadAll") || (which == n!"Serialize" && variant == n!"Write"))
+  | .bits variant _ => which == n!"Serialize" && variant == n!"Write"
+  | .htrTree n t =>
+    which == n!"HashTreeRoot" && htOk n t &&
+      (match sty with
+       | .bytesN e => isLit e n
+       | _ => false)
+  | .opaque _ => true
+  | _ => false
 
 /-- Result of checking one Go type: `none` = agrees; `some reason` names the offending method. -/
 def checkType (owners : Owners) (views : List ViewDef) (T : GoType) : Option String :=
